@@ -27,7 +27,15 @@ impl<T: bech32::Checksum> MockApiBech<T> {
 
 impl<T: bech32::Checksum> Api for MockApiBech<T> {
     fn addr_validate(&self, input: &str) -> StdResult<Addr> {
-        self.addr_humanize(&self.addr_canonicalize(input)?)
+        let normalized = self.addr_humanize(&self.addr_canonicalize(input)?)?;
+        // a valid address is returned as it was given: an input that decodes
+        // but is spelled differently (padding bits, letter case) is not one
+        if input != normalized.as_str() {
+            return Err(StdError::generic_err(
+                "Invalid input: address not normalized",
+            ));
+        }
+        Ok(normalized)
     }
 
     fn addr_canonicalize(&self, input: &str) -> StdResult<CanonicalAddr> {
